@@ -635,4 +635,139 @@ theorem evolve_some_flags : ∀ (ds : List Decl) (f : Name) (v : FV),
           simp only [declares, List.any_cons, fileRooted, Bool.true_and, Bool.false_or]
           cases v.isRoot <;> cases (initFnRefs items).contains f <;> simp
 
+theorem stepFV_create (f : Name) (n : Nat) (s e i : Bool) (body : Option (List BodyItem)) :
+    ∃ v1, stepFV (.func f n s e i body) f none = some v1 ∧ v1.isStatic = (s || (i && !e)) ∧ v1.isInline = i ∧
+      v1.refs = (match body with | some b => bodyFnRefs b | none => []) ∧
+      v1.isRoot = !((s || (i && !e)) && i) := by
+  cases body with
+  | none =>
+    exact ⟨rootIf ⟨s || (i && !e), i, false, false, []⟩, by simp [stepFV], by simp [rootIf_isStatic],
+      by simp [rootIf_isInline], by simp [rootIf_refs], by simp [rootIf_isRoot]⟩
+  | some b =>
+    exact ⟨addRefs (bodyFnRefs b) (rootIf ⟨s || (i && !e), i, false, true, []⟩), by simp [stepFV],
+      by simp [addRefs, rootIf_isStatic], by simp [addRefs, rootIf_isInline], by simp [addRefs, rootIf_refs],
+      by simp [addRefs, rootIf_isRoot]⟩
+
+theorem evolve_none : ∀ (ds : List Decl) (f : Name),
+    (firstFlags ds f = none → evolve ds f none = none) ∧
+    (∀ st inl, firstFlags ds f = some (st, inl) → ∃ v', evolve ds f none = some v' ∧ v'.isStatic = st ∧
+      v'.isInline = inl ∧ v'.refs = allBodyRefs ds f ∧ v'.isRoot = (!(st && inl) || fileRooted ds false f))
+  | [], f => ⟨fun _ => rfl, fun _ _ h => by simp [firstFlags] at h⟩
+  | d :: ds, f => by
+    have ih := evolve_none ds f
+    cases d with
+    | func g n s e i body =>
+      by_cases hfg : f = g
+      · subst hfg
+        have hff : firstFlags (.func f n s e i body :: ds) f = some (s || (i && !e), i) := by
+          simp [firstFlags, List.findSome?]
+        refine ⟨fun h => ?_, fun st inl h => ?_⟩
+        · rw [hff] at h; cases h
+        rw [hff] at h
+        simp only [Option.some.injEq, Prod.mk.injEq] at h
+        obtain ⟨rfl, rfl⟩ := h
+        obtain ⟨v1, hstep, hs1, hi1, hr1, hroot1⟩ := stepFV_create f n s e i body
+        obtain ⟨v', h', hs', hi', hr', hroot'⟩ := evolve_some_flags ds f v1
+        refine ⟨v', ?_, hs'.trans hs1, hi'.trans hi1, ?_, ?_⟩
+        · simp only [evolve, List.foldl_cons] at h' ⊢
+          rw [hstep]; exact h'
+        · rw [hr', hr1]
+          cases body <;> simp [allBodyRefs]
+        · rw [hroot', hroot1, hs1, hi1]
+          simp only [fileRooted, Bool.false_or, beq_self_eq_true]
+          cases (!((s || (i && !e)) && i)) <;> simp
+      · have hstep : stepFV (.func g n s e i body) f none = none := by simp [stepFV, hfg]
+        have hne : g ≠ f := fun e => hfg e.symm
+        have hff : firstFlags (.func g n s e i body :: ds) f = firstFlags ds f := by
+          simp [firstFlags, List.findSome?, hne]
+        have hfr : fileRooted (.func g n s e i body :: ds) false f = fileRooted ds false f := by
+          have : (g == f) = false := by simp [hne]
+          simp [fileRooted, this]
+        have hab : allBodyRefs (.func g n s e i body :: ds) f = allBodyRefs ds f := by
+          cases body <;> simp [allBodyRefs, hne]
+        rw [hff, hfr, hab]
+        have hev : evolve (.func g n s e i body :: ds) f none = evolve ds f none := by
+          simp only [evolve, List.foldl_cons, hstep]
+        rw [hev]; exact ih
+    | obj x s e t ty init =>
+      have hstep : stepFV (.obj x s e t ty init) f none = none := by cases init <;> simp [stepFV]
+      have hff : firstFlags (.obj x s e t ty init :: ds) f = firstFlags ds f := by
+        simp [firstFlags, List.findSome?]
+      have hfr : fileRooted (.obj x s e t ty init :: ds) false f = fileRooted ds false f := by
+        simp [fileRooted]
+      have hab : allBodyRefs (.obj x s e t ty init :: ds) f = allBodyRefs ds f := by
+        simp [allBodyRefs]
+      rw [hff, hfr, hab]
+      have hev : evolve (.obj x s e t ty init :: ds) f none = evolve ds f none := by
+        simp only [evolve, List.foldl_cons, hstep]
+      rw [hev]; exact ih
+
+/-- the function table after parsing `ds` from the empty state -/
+theorem T_parse {ds : List Decl} {st : PState} (h : declAll {} ds = .ok st) (f : Name) :
+    T st.globals f = evolve ds f none := by
+  rw [T_declAll ds h, foldT_eq]
+  rfl
+
+theorem allBodyRefs_cons (d : Decl) (ds : List Decl) (f : Name) :
+    allBodyRefs (d :: ds) f =
+      (match d with | .func g _ _ _ _ (some b) => if g = f then bodyFnRefs b else [] | _ => []) ++ allBodyRefs ds f := by
+  simp [allBodyRefs, List.flatMap_cons]
+
+theorem allBodyRefs_undeclared : ∀ (ds : List Decl) (f : Name), firstFlags ds f = none → allBodyRefs ds f = []
+  | [], _, _ => rfl
+  | d :: ds, f, h => by
+    rw [allBodyRefs_cons]
+    cases d with
+    | func g n s e i body =>
+      by_cases hgf : g = f
+      · simp [firstFlags, List.findSome?, hgf] at h
+      · have h' : firstFlags ds f = none := by simpa [firstFlags, List.findSome?, hgf] using h
+        rw [allBodyRefs_undeclared ds f h']
+        cases body <;> simp [hgf]
+    | obj x s e t ty init =>
+      have h' : firstFlags ds f = none := by simpa [firstFlags, List.findSome?] using h
+      rw [allBodyRefs_undeclared ds f h']
+      rfl
+
+theorem isFn_eq_T (gs : List Obj) (f : Name) : isFn gs f = (T gs f).isSome := by
+  simp [isFn, T]
+
+theorem refsOf_eq_T (gs : List Obj) (f : Name) : refsOf gs f = ((T gs f).map (·.refs)).getD [] := by
+  unfold refsOf T
+  cases findFunc gs f <;> rfl
+
+theorem mem_rootNames_iff_T {gs : List Obj} (hn : (fnNamesOf gs).Nodup) (f : Name) :
+    f ∈ rootNames gs ↔ ∃ v, T gs f = some v ∧ v.isRoot = true := by
+  constructor
+  · intro h
+    unfold rootNames at h
+    rw [List.mem_filterMap] at h
+    obtain ⟨o, ho, hh⟩ := h
+    cases hs : o.sym with
+    | anon k => simp [hs] at hh
+    | named n =>
+      simp only [hs] at hh
+      split at hh
+      · rename_i hc
+        simp only [Bool.and_eq_true] at hc
+        simp only [Option.some.injEq] at hh
+        subst hh
+        refine ⟨fview o, ?_, hc.2⟩
+        simp [T, findFunc_of_mem hn ho hc.1 hs]
+      · cases hh
+  · rintro ⟨v, hv, hr⟩
+    unfold T at hv
+    cases hf : findFunc gs f with
+    | none => simp [hf] at hv
+    | some o =>
+      simp only [hf, Option.map_some, Option.some.injEq] at hv
+      have ho := List.mem_of_find?_eq_some hf
+      have hp := List.find?_some hf
+      simp only [Bool.and_eq_true, beq_iff_eq] at hp
+      unfold rootNames
+      rw [List.mem_filterMap]
+      refine ⟨o, ho, ?_⟩
+      have : o.isRoot = true := by rw [← hv] at hr; exact hr
+      simp [hp.2, hp.1, this]
+
 end ChibiVerif.Linkage
